@@ -10,6 +10,8 @@ import (
 	"encoding/json"
 	"fmt"
 	"os"
+	"path/filepath"
+	"sort"
 
 	"github.com/veraison/psatoken"
 )
@@ -181,6 +183,8 @@ type readEv struct {
 	VRet   Ret              `json:"vret"`
 	Get    map[string]Ret   `json:"get"`
 	CGet   []map[string]Ret `json:"cget"`
+	EvInst V                `json:"evInst"` // Evidence.GetInstanceID() on an Evidence holding these claims (absent = nil)
+	EvImpl V                `json:"evImpl"`
 	SnapEq bool             `json:"snapEq"`
 	EncEq  bool             `json:"encEq"`
 	RepEq  bool             `json:"repEq"`
@@ -201,6 +205,16 @@ func observeRead(c psatoken.IClaims, b int, src, how string) readEv {
 	ev.VRet = safeValidate(c)
 	ev.Get = safeGetters(c)
 	ev.CGet = compGettersOf(c)
+	ev.EvInst, ev.EvImpl = absent(), absent()
+	safely(func() {
+		e := &psatoken.Evidence{Claims: c}
+		if p := e.GetInstanceID(); p != nil {
+			ev.EvInst = absBytes(*p)
+		}
+		if p := e.GetImplementationID(); p != nil {
+			ev.EvImpl = absBytes(*p)
+		}
+	})
 	v2, g2 := safeValidate(c), safeGetters(c)
 	ev.RepEq = jsonEq(ev.VRet, v2) && jsonEq(ev.Get, g2)
 	enc1 := encDigest(c)
@@ -410,6 +424,79 @@ func init() {
 				r.emit(s, "random", how)
 			}
 			_ = ntri
+		}
+		// the repository's own JSON vectors, loaded the way its tests load them (no validation), as recorded executions
+		if a.In2 != "" {
+			files, _ := filepath.Glob(filepath.Join(a.In2, "*.json"))
+			sort.Strings(files)
+			for _, f := range files {
+				buf, err := os.ReadFile(f)
+				if err != nil {
+					continue
+				}
+				for _, p := range []string{"P1", "P2"} {
+					c := blankClaims(p, canonOf[p])
+					if err := json.Unmarshal(buf, c); err != nil {
+						continue
+					}
+					ev := observeRead(c, r.b, "vec:"+filepath.Base(f), "json")
+					r.b++
+					r.bysrc["vector"]++
+					r.t.Emit(ev, true, nontrivialRead(ev))
+				}
+			}
+		}
+		// the exported per-claim validators over their value classes
+		emitV := func(fn string, arg V, err error) {
+			r.t.Emit(map[string]any{"b": r.b, "i": 0, "op": "Validator", "fn": fn, "arg": arg, "ret": mkRet(err, absent())}, true, err != nil)
+			r.b++
+			r.bysrc["validator"]++
+		}
+		for n := 0; n <= 80; n++ {
+			for b0 := 0; b0 <= 2; b0++ {
+				x := r.conc.bytes(n, b0)
+				emitV("ValidateImplID", absBytes(x), psatoken.ValidateImplID(x))
+				emitV("ValidatePSAHashType", absBytes(x), psatoken.ValidatePSAHashType(x))
+				emitV("ValidateNonce", absBytes(x), psatoken.ValidateNonce(x))
+				if n > 0 {
+					emitV("ValidateInstID", absBytes(x), psatoken.ValidateInstID(x))
+				}
+			}
+		}
+		for _, n := range []int{0, 1, 46} {
+			for cls := 0; cls <= 2; cls++ {
+				x := r.conc.str(n, cls)
+				emitV("ValidateVSI", absStr(x), psatoken.ValidateVSI(x))
+			}
+		}
+		for _, x := range []string{"", "md2", "md5", "sha-1", "sha-224", "sha-256", "sha-384", "sha-512", "shake128", "shake256", "sha256", "SHA-256", "sha-512 ", "sha-3", "x"} {
+			emitV("ValidateHashAlgID", V{K: "str", N: len(x), S: []any{x}, H: hx([]byte(x))}, psatoken.ValidateHashAlgID(x))
+		}
+		for _, l := range d.SwLists {
+			comps := swFromAny(l)
+			real := []psatoken.ISwComponent{}
+			absl := []Comp{}
+			hasNull := false
+			for _, ac := range comps {
+				rc := r.conc.compReal(ac)
+				if rc == nil {
+					hasNull = true
+					break
+				}
+				real = append(real, rc)
+				absl = append(absl, absComp(rc))
+			}
+			if hasNull {
+				continue
+			}
+			var verr error
+			pan := safely(func() { verr = psatoken.ValidateSwComponents(real) })
+			ret := mkRet(verr, absent())
+			if pan {
+				ret = Ret{OK: false, Cls: []string{"PANIC"}, Val: absent()}
+			}
+			r.t.Emit(map[string]any{"b": r.b, "i": 0, "op": "Validator", "fn": "ValidateSwComponents", "arg": swArg{L: absl}, "ret": ret}, true, true)
+			r.b++
 		}
 		r.t.Close(map[string]any{"skipped_builds": r.skips, "by_source": r.bysrc})
 		fmt.Fprintf(os.Stderr, "claims-read: %d events, %d skipped builds\n", r.t.n, r.skips)
